@@ -161,6 +161,29 @@ func checkC14(c *Ctx, r *Report) {
 		whyKey = "the record is stored under " + apOf(ld.X).String() + " (the ID that was requested), not the ID in the record's own header: the first record (requested as 0x0000) lands under the wrong key"
 	}
 	r.Check(okKey, name+"|map key", mu.Pos(), "key = header.ID", whyKey)
+	// ... and it is nothing but the key: the ID asked for and the ID found differ legitimately
+	// (0x0000 asks for the first record, whatever its ID), so no branch of the walk may depend
+	// on the header's ID
+	{
+		nCmp := 0
+		viewInstrs(walk, func(in ssa.Instruction) {
+			ifi, ok := in.(*ssa.If)
+			if !ok {
+				return
+			}
+			bo, isBin := ifi.Cond.(*ssa.BinOp)
+			if !isBin {
+				return
+			}
+			if isHdrField(bo.X, "ID") || isHdrField(bo.Y, "ID") {
+				nCmp++
+				r.Bad(name+"|no branch on the header's ID", bo.Pos(), "the walk branches on the record ID found in the header: the first record is requested as 0x0000 and has an ID of its own, so a test against the requested ID (or any other value) refuses or skips records the repository holds")
+			}
+		})
+		if nCmp == 0 {
+			r.OK(name+"|no branch on the header's ID", walk.Pos(), "the header's ID is used as the key only")
+		}
+	}
 
 	// value is the asserted Full Sensor Record of the body packet
 	r.Rule("value-is-decoded-record", "the stored value is the Full Sensor Record layer decoded from the body read", 1)
@@ -305,6 +328,8 @@ func checkC14(c *Ctx, r *Report) {
 	})
 	okRes = okRes && nRes > 0
 	r.Check(okRes, name+"|reservation ID", walk.Pos(), "from ReserveSDRRepository at the start of the walk", "Get SDR requests do not carry the reservation ID returned by this walk's Reserve SDR Repository")
+
+	checkWalkCommandsReserved(c, r)
 
 	// (3) chain
 	r.Rule("next-chain", "after each record the next request asks for the response's Next record ID with offset 0 and the header length; the first request asks for 0x0000", 4)
@@ -782,4 +807,69 @@ func checkWalkFreshMap(c *Ctx, r *Report, walk *ssa.Function, mu *ssa.MapUpdate)
 		}
 	}
 	r.Check(freshMap && len(mos) > 0, c.FnName(walk)+"|fresh result per walk", mu.Pos(), "each walk fills a map of its own", "records are added to a map that outlives the walk: when a walk is abandoned (reservation lost, repository changed) its records survive into the result")
+}
+
+// checkWalkCommandsReserved: every Get SDR command object the walk builds is given this walk's
+// reservation ID — a second command object for the body read (offset > 0, where the BMC insists
+// on a reservation) that is built without it goes out under reservation 0. Shared with C06 (the
+// request's fields are those of the walk, reservation included).
+func checkWalkCommandsReserved(c *Ctx, r *Report) {
+	r.Rule("walk-commands-reserved", "every Get SDR command the walk allocates has its ReservationID stored from this walk's Reserve SDR Repository reply", 1)
+	walk, _ := c.findSDRWalk()
+	if walk == nil {
+		r.Lost("SDR walk (function updating a bmc.SDRRepository map)")
+		return
+	}
+	cmdT := c.Named("pkg/ipmi", "GetSDRCmd")
+	if cmdT == nil {
+		r.Lost("ipmi.GetSDRCmd")
+		return
+	}
+	reserved := map[ssa.Value]bool{}
+	opaque := false
+	var allocs []*ssa.Alloc
+	viewInstrs(walk, func(in ssa.Instruction) {
+		if al, ok := in.(*ssa.Alloc); ok {
+			if pt, isP := al.Type().Underlying().(*types.Pointer); isP && types.Identical(pt.Elem(), cmdT) {
+				allocs = append(allocs, al)
+			}
+			return
+		}
+		sel, root, st, ok := storeSel(in)
+		if !ok || !strings.HasSuffix(sel, "ReservationID") || !strings.Contains(sel, "Req") {
+			return
+		}
+		ld, isLd := st.Val.(*ssa.UnOp)
+		if !isLd {
+			return
+		}
+		for _, a := range viewAPs(walk, ld.X) {
+			ex, isEx := a.Root.(*ssa.Extract)
+			if !isEx || a.SelString() != "ReservationID" {
+				continue
+			}
+			if call, isCall := ex.Tuple.(*ssa.Call); isCall && call.Call.IsInvoke() && call.Call.Method.Name() == "ReserveSDRRepository" {
+				if _, isAlloc := root.(*ssa.Alloc); isAlloc {
+					reserved[root] = true
+				} else {
+					opaque = true // stored through a parameter or another indirection: not judged here
+				}
+			}
+		}
+	})
+	name := c.FnName(walk)
+	if len(allocs) == 0 || opaque {
+		r.OK(name+"|every Get SDR command carries the reservation", walk.Pos(), "command objects not allocated in the walk's own view, or filled through a helper's parameter: decided by the reservation rule on the stores")
+		return
+	}
+	bad := 0
+	for _, al := range allocs {
+		if !reserved[al] {
+			bad++
+			r.Bad(name+"|every Get SDR command carries the reservation", al.Pos(), "a Get SDR command object built in the walk never receives this walk's reservation ID: its requests (a partial read at an offset above 0 needs one) go out under reservation 0x0000")
+		}
+	}
+	if bad == 0 {
+		r.OK(name+"|every Get SDR command carries the reservation", walk.Pos(), fmt.Sprintf("%d command objects, each with the reservation stored", len(allocs)))
+	}
 }
